@@ -69,17 +69,18 @@ pub fn dash_path(path: &Path, dash_array: &[f32], mut dash_offset: f32) -> Path 
     for op in &path.ops {
         match *op {
             PathOp::MoveTo(pt) => {
-                cur_pt = Some(pt);
-                start_point = Some(pt);
-                dashed.move_to(pt.x, pt.y);
-
-                // flush the previous initial segment
+                // flush the previous initial segment; this has to happen before the
+                // new subpath is started so that what follows continues from `pt`
                 if initial_segment.len() > 0 {
                     dashed.move_to(initial_segment[0].x, initial_segment[0].y);
                     for i in 1..initial_segment.len() {
                         dashed.line_to(initial_segment[i].x, initial_segment[i].y);
                     }
                 }
+
+                cur_pt = Some(pt);
+                start_point = Some(pt);
+                dashed.move_to(pt.x, pt.y);
                 is_first_segment = true;
                 initial_segment = Vec::new();
                 first_dash = true;
